@@ -71,6 +71,8 @@ def main(c):
                     bad = "faulty_attr_believed"
                 elif x["attr2"] != "none" and not res["present2"] and not case["drop2"]:
                     bad = "attr_lost"
+            elif out == "ignored" and x["base"].startswith("only"):
+                pass                # nothing was announced: there is nothing to install or to treat as withdrawn
             else:
                 bad = out           # panic / ignored (neither installed nor withdrawn) / needmore
             if bad is None and out != "reset" and x["base"].endswith("_wd") and not res.get("withdrawals_applied"):
